@@ -45,7 +45,9 @@ pub fn parse_rec(bytes: &[u8]) -> Result<Parsed, Panic> {
     let mut rec = RecConsumer::default();
     let budget = 16 * (bytes.len() as u64 / 4) + 256;
     rspirv::verif::set_step_budget(Some(budget));
-    let r = catch(|| rspirv::binary::parse_bytes(bytes, &mut rec));
+    // the two byte-based entry points do the same job: alternate between them by content
+    let direct = bytes.len() % 8 >= 4 || bytes.iter().take(64).fold(0u8, |a, b| a ^ *b) & 1 == 1;
+    let r = catch(|| if direct { rspirv::binary::Parser::new(bytes, &mut rec).parse() } else { rspirv::binary::parse_bytes(bytes, &mut rec) });
     let steps = rspirv::verif::steps();
     rspirv::verif::set_step_budget(None);
     r.map(|result| Parsed { result, rec, steps })
